@@ -250,14 +250,52 @@ pub extern "C" fn on_alarm(_s: i32) {
         }
         holders.push(json!([pid, inos, what, ino, parent_holds_peer, others_hold_peer, peer_pids]));
     }
+    // the library blocked in read(fd) of a pipe, or in poll() on some pipes: for each of them, which children hold
+    // the OTHER end (any descriptor, also 0-2), and does the library's own process hold it too
+    let mut waits_on: Vec<(i64, i64)> = vec![]; // (fd, peer access mode)
+    if blocked <= -1000 {
+        waits_on.push((-1000 - blocked, 1));
+    }
+    let npoll = slog::BLOCKED_POLL[0].load(std::sync::atomic::Ordering::SeqCst);
+    for i in 0..npoll as usize {
+        let v = slog::BLOCKED_POLL[i + 1].load(std::sync::atomic::Ordering::SeqCst);
+        let (fd, ev) = (v >> 16, v & 0xffff);
+        waits_on.push((fd, if ev & libc::POLLOUT as i64 != 0 { 0 } else { 1 }));
+    }
+    let mut parent_io = vec![];
+    for (fd, peer_acc) in waits_on {
+        let ino = pipe_ino_of(me, fd);
+        if ino == 0 {
+            continue;
+        }
+        let mut peers: Vec<i32> = vec![];
+        for pid in my_children() {
+            if let Ok(rd) = fs::read_dir(format!("/proc/{}/fd", pid)) {
+                for e in rd.flatten() {
+                    let cfd: i64 = e.file_name().to_str().and_then(|s| s.parse().ok()).unwrap_or(-1);
+                    if pipe_ino_of(pid, cfd) == ino {
+                        let info = fs::read_to_string(format!("/proc/{}/fdinfo/{}", pid, cfd)).unwrap_or_default();
+                        for l in info.lines() {
+                            if let Some(x) = l.strip_prefix("flags:") {
+                                if i64::from_str_radix(x.trim(), 8).unwrap_or(0) & 3 == peer_acc && !peers.contains(&pid) {
+                                    peers.push(pid);
+                                }
+                            }
+                        }
+                    }
+                }
+            }
+        }
+        let self_peer = mine.iter().any(|(i, a)| *i == ino && *a == peer_acc);
+        parent_io.push(json!([ino, peers, self_peer]));
+    }
     for h in &holders {
         unsafe {
             crate::raw::kill(h[0].as_i64().unwrap() as i32, 9);
         }
     }
-    let _ = me;
     unsafe {
-        (*std::ptr::addr_of_mut!(WATCHDOG)).push(json!({"e":"watchdog","holders":holders,"parent_waits":parent_waits}).to_string());
+        (*std::ptr::addr_of_mut!(WATCHDOG)).push(json!({"e":"watchdog","holders":holders,"parent_waits":parent_waits,"parent_io":parent_io}).to_string());
         slog::RECORDING = was_recording;
         slog::BLOCKED_IN.store(blocked, std::sync::atomic::Ordering::SeqCst);
     }
